@@ -109,7 +109,11 @@ class AliasDeref:
                 # specific class (Module, Class, Parameter, ...) does
                 if (types and self.alias not in types and not (object_may_be_alias and any(t.name == "Object" for t in types))) or rtext == "self":
                     continue
-                facts = self.alias_facts(f, n)
+                facts = set(self.alias_facts(f, n))
+                # earlier operands of the same `and` / `or` / conditional expression: `not x.is_alias and x.is_module`
+                from sa.rules.C12 import _short_circuit_facts
+
+                facts |= {(unparse(a.value), t) for a, t in _short_circuit_facts(n) if isinstance(a, ast.Attribute) and a.attr == "is_alias"}
                 if (rtext, False) in facts:
                     out.append(Site(f, n, rtext, "guarded", f"dominated by `not {rtext}.is_alias`"))
                     continue
